@@ -777,12 +777,15 @@ def check_protocol(ctx, inst, hist):
         pending = []       # indexes of calls whose store has not been seen
         for e in d_.log:
             if e[0] == 'get':
-                calls.append({'t': 'call', 'k': kid(e[1]), 's': kid(e[1]), 'cacheable': False}); real.append('hit' if e[2] else 'miss')
+                calls.append({'t': 'call', 'k': kid(e[1]), 's': kid(e[1]), 'cacheable': False, 'acc': True}); real.append('hit' if e[2] else 'miss')
                 if not e[2]: pending.append(len(calls) - 1)
             elif e[0] == 'set':
                 # the store of the most recent missing call with this key (Entity.load: ANY most recent missing call, stored under another key)
                 j = next((i for i in reversed(pending) if calls[i]['k'] == kid(e[1])), None)
                 if j is None and kind == '_load_sql_cache_' and pending: j = pending[-1]
+                if j is None and calls and calls[-1].get('t') == 'call' and calls[-1]['k'] == kid(e[1]) and real[-1] == 'hit':
+                    # a hit that the code re-validated and rejected (create_extractors with the scope re-check): recomputed and stored again
+                    calls[-1]['acc'] = False; calls[-1]['cacheable'] = True; real[-1] = 'reject'; continue
                 if j is None:
                     ctx.divergence('a cache store without a preceding missed lookup', {'cache': d_.name, 'key': repr(e[1])[:200]}, model='get-miss-set', impl='set'); continue
                 pending.remove(j); calls[j]['s'] = kid(e[1]); calls[j]['cacheable'] = True
